@@ -6,9 +6,7 @@ def run(ctx):
     ctx.regen([("Gen/TextFlags", "TextFlags"), ("Oracle/TextFlagH", "TextFlagH")])
     ctx.forbidden_scan()
     # the driver (model + acceptor) must build even when a table theorem breaks
-    ok, _ = ctx.lake(["avodriver"])
-    if not ok:
-        ctx.obligation_failures.append(("avodriver build", "lake build avodriver failed"))
+    if not ctx.build_driver():
         return
     if ctx.lake_each(["AvoVerif.Props.C19", "AvoVerif.Props.C19Tables"]):
         ctx.audit("C19")
